@@ -2,6 +2,9 @@
 #define UTIL_PCQUEUE_H
 
 #include "util/exception.hh"
+#ifdef PREPROCESS_VERIF
+#include "util/verif_hooks.hh"
+#endif
 
 #include <algorithm>
 #include <cerrno>
@@ -93,6 +96,9 @@ class Semaphore {
   public:
     explicit Semaphore(unsigned int value) {
       UTIL_THROW_IF(sem_init(&sem_, 0, value), ErrnoException, "Could not create semaphore");
+#ifdef PREPROCESS_VERIF
+      PREPROCESS_VERIF_SEM_INIT(this, value);
+#endif
     }
 
     ~Semaphore() {
@@ -103,12 +109,18 @@ class Semaphore {
     }
 
     void wait() {
+#ifdef PREPROCESS_VERIF
+      PREPROCESS_VERIF_SEM_WAIT(this);
+#endif
       while (-1 == sem_wait(&sem_)) {
         UTIL_THROW_IF(errno != EINTR, ErrnoException, "Wait for semaphore failed");
       }
     }
 
     void post() {
+#ifdef PREPROCESS_VERIF
+      PREPROCESS_VERIF_SEM_POST(this);
+#endif
       UTIL_THROW_IF(-1 == sem_post(&sem_), ErrnoException, "Could not post to semaphore");
     }
 
@@ -138,7 +150,13 @@ template <class T> class PCQueue {
   void Produce(const T &val) {
     empty_.wait();
     {
+#ifdef PREPROCESS_VERIF
+      PREPROCESS_VERIF_MUTEX_LOCK(&produce_at_mutex_);
+#endif
       std::lock_guard<std::mutex> produce_lock(produce_at_mutex_);
+#ifdef PREPROCESS_VERIF
+      PREPROCESS_VERIF_YIELD("pcq.produce.write");
+#endif
       try {
         *produce_at_ = val;
       } catch (...) {
@@ -147,6 +165,9 @@ template <class T> class PCQueue {
       }
       if (++produce_at_ == end_) produce_at_ = storage_.get();
     }
+#ifdef PREPROCESS_VERIF
+    PREPROCESS_VERIF_MUTEX_UNLOCK(&produce_at_mutex_);
+#endif
     used_.post();
   }
 
@@ -154,7 +175,13 @@ template <class T> class PCQueue {
   void ProduceSwap(T &val) {
     empty_.wait();
     {
+#ifdef PREPROCESS_VERIF
+      PREPROCESS_VERIF_MUTEX_LOCK(&produce_at_mutex_);
+#endif
       std::lock_guard<std::mutex> produce_lock(produce_at_mutex_);
+#ifdef PREPROCESS_VERIF
+      PREPROCESS_VERIF_YIELD("pcq.produce.write");
+#endif
       try {
         std::swap(*produce_at_, val);
       } catch (...) {
@@ -163,6 +190,9 @@ template <class T> class PCQueue {
       }
       if (++produce_at_ == end_) produce_at_ = storage_.get();
     }
+#ifdef PREPROCESS_VERIF
+    PREPROCESS_VERIF_MUTEX_UNLOCK(&produce_at_mutex_);
+#endif
     used_.post();
   }
 
@@ -171,7 +201,13 @@ template <class T> class PCQueue {
   T& Consume(T &out) {
     used_.wait();
     {
+#ifdef PREPROCESS_VERIF
+      PREPROCESS_VERIF_MUTEX_LOCK(&consume_at_mutex_);
+#endif
       std::lock_guard<std::mutex> consume_lock(consume_at_mutex_);
+#ifdef PREPROCESS_VERIF
+      PREPROCESS_VERIF_YIELD("pcq.consume.read");
+#endif
       try {
         out = *consume_at_;
       } catch (...) {
@@ -180,6 +216,9 @@ template <class T> class PCQueue {
       }
       if (++consume_at_ == end_) consume_at_ = storage_.get();
     }
+#ifdef PREPROCESS_VERIF
+    PREPROCESS_VERIF_MUTEX_UNLOCK(&consume_at_mutex_);
+#endif
     empty_.post();
     return out;
   }
@@ -188,7 +227,13 @@ template <class T> class PCQueue {
   T& ConsumeSwap(T &out) {
     used_.wait();
     {
+#ifdef PREPROCESS_VERIF
+      PREPROCESS_VERIF_MUTEX_LOCK(&consume_at_mutex_);
+#endif
       std::lock_guard<std::mutex> consume_lock(consume_at_mutex_);
+#ifdef PREPROCESS_VERIF
+      PREPROCESS_VERIF_YIELD("pcq.consume.read");
+#endif
       try {
         std::swap(out, *consume_at_);
       } catch (...) {
@@ -197,6 +242,9 @@ template <class T> class PCQueue {
       }
       if (++consume_at_ == end_) consume_at_ = storage_.get();
     }
+#ifdef PREPROCESS_VERIF
+    PREPROCESS_VERIF_MUTEX_UNLOCK(&consume_at_mutex_);
+#endif
     empty_.post();
     return out;
   }
@@ -243,11 +291,17 @@ template <class T> class UnboundedSingleQueue {
     }
 
     void Produce(T &&val) {
+#ifdef PREPROCESS_VERIF
+      PREPROCESS_VERIF_YIELD("usq.produce.link");
+#endif
       if (filling_current_ == filling_end_) {
         UnboundedPage<T> *next = new UnboundedPage<T>();
         filling_->next = next;
         SetFilling(next);
       }
+#ifdef PREPROCESS_VERIF
+      PREPROCESS_VERIF_YIELD("usq.produce.write");
+#endif
       *(filling_current_++) = std::move(val);
       valid_.post();
     }
@@ -258,9 +312,15 @@ template <class T> class UnboundedSingleQueue {
 
     T& Consume(T &out) {
       valid_.wait();
+#ifdef PREPROCESS_VERIF
+      PREPROCESS_VERIF_YIELD("usq.consume.switch");
+#endif
       if (reading_current_ == reading_end_) {
         SetReading(reading_->next);
       }
+#ifdef PREPROCESS_VERIF
+      PREPROCESS_VERIF_YIELD("usq.consume.read");
+#endif
       out = std::move(*(reading_current_++));
       return out;
     }
